@@ -508,6 +508,7 @@ def finish(pid, tier, seed, mod, jobs, results, problems, work, wall):
     if problems and rc == 0:
         rc = 2
     meta = getattr(mod, "META", {})
+    ev_assumes = scan_assumes(jobs)
     ev = {
         "property_id": pid, "tier": tier, "seed": seed, "level": "proof",
         "coverage": {
@@ -525,6 +526,10 @@ def finish(pid, tier, seed, mod, jobs, results, problems, work, wall):
             "undecided": [{"job": j.name, "why": m[:500]} for j, m in problems],
             "jobs_run": len(results), "jobs_planned": len(jobs),
             "explanation": meta.get("explanation", ""),
+            # mechanical scan (every run): each __CPROVER_assume in the harnesses of this property's jobs and in the model /
+            # contract / monitor headers they include -- input-domain bounds of ghost indices and the stated behaviour of
+            # library models; none is inside code extracted from the repository
+            "assume_statements": ev_assumes,
         },
         "assumptions": meta.get("assumptions", []),
         "wall_s": round(wall, 2),
@@ -535,6 +540,29 @@ def finish(pid, tier, seed, mod, jobs, results, problems, work, wall):
     print("%s tier=%s jobs=%d obligations=%d discharged=%d bounded=%d/%d violations=%d undecided=%d wall=%.1fs" %
           (pid, tier, len(results), n_obl, n_ok, b_ok, b_obl, len(replay_paths), len(problems), wall))
     return rc
+
+
+def scan_assumes(jobs):
+    seen, out, todo = set(), [], []
+    for j in jobs:
+        todo.append(os.path.join(VERIF, j.harness))
+    while todo:
+        f = todo.pop()
+        if f in seen or not os.path.exists(f):
+            continue
+        seen.add(f)
+        try:
+            lines = open(f, encoding="utf-8", errors="replace").read().splitlines()
+        except OSError:
+            continue
+        for n, l in enumerate(lines, 1):
+            m = re.match(r'\s*#\s*include\s+"([^"]+)"', l)
+            if m:
+                for d in ("harness", "models", "contracts", "spec"):
+                    todo.append(os.path.join(VERIF, d, m.group(1)))
+            if "__CPROVER_assume" in l and not l.lstrip().startswith(("/*", "*", "//")):
+                out.append("%s:%d: %s" % (os.path.relpath(f, VERIF), n, l.strip()[:200]))
+    return sorted(out)
 
 
 if __name__ == "__main__":
